@@ -84,6 +84,9 @@ func (a *Analysis) entryContexts(fn *ssa.Function) []*Ctx {
 			out = append(out, &Ctx{Name: "any"})
 			return
 		}
+		if _, ok := g.Extra.Enumerate(64); !ok {
+			a.R.Unk("P1", fnKey(fn)+"/contexts", a.P.Pos(fn.Pos()), "", "more than 64 sizes outside the BIP39 table get past the gate of %s (%v): they cannot be enumerated as contexts", fnKey(fn), g.Extra)
+		}
 		for _, lc := range lcs {
 			for _, s := range g.passed() {
 				s := s
